@@ -443,7 +443,7 @@ Lemma scan_group_frame (P : gresult -> Prop) e o mn mx st a all_nodes all_pods :
   let cap := nodes_capacity (c_untainted cls) pods in
   (fst lkr = true \/ (nodes = [] /\ pods = []) \/ zlen nodes < mn \/ mx < zlen nodes \/
    calc_percent (r_cpu (u_total us)) (1000 * r_mem (u_total us)) (r_cpu (k_total cap)) (1000 * r_mem (k_total cap)) (zlen (c_untainted cls)) = PctErr ->
-   forall tags out ret st', P (mk tags [] out ret st' a)) ->
+   forall tags out ret st', out = OutOk \/ out = OutErr -> P (mk tags [] out ret st' a)) ->
   (fst lkr = false -> zlen (c_untainted cls) < mn -> mn <= zlen nodes <= mx ->
    forall tags, let r := scale_up e o mx dry st2 a (c_tainted cls) (mn - zlen (c_untainted cls)) in
    P (mk tags (up_calls r) (up_out r) (up_ret r) (up_state r) (up_asg r))) ->
@@ -458,18 +458,18 @@ Lemma scan_group_frame (P : gresult -> Prop) e o mn mx st a all_nodes all_pods :
 Proof.
   intros dry pods nodes st1 cls lkr st2 us cap Hq Hb Hd. unfold scan_group.
   fold dry pods nodes st1 cls us cap lkr st2.
-  assert (Hne : forall r, ((nodes <> [] \/ pods <> []) -> P r) -> ((nodes = [] /\ pods = []) -> forall tags out ret st', P (mk tags [] out ret st' a)) ->
+  assert (Hne : forall r, ((nodes <> [] \/ pods <> []) -> P r) -> ((nodes = [] /\ pods = []) -> forall tags out ret st', out = OutOk \/ out = OutErr -> P (mk tags [] out ret st' a)) ->
                 P (match nodes, pods with [], [] => mk (T_both_empty :: (if dry then [T_dry] else [])) [] OutOk 0 st1 a | _, _ => r end)).
-  { intros r Hr Hq'. destruct nodes, pods; try (apply Hq'; split; reflexivity); apply Hr; [right | left | left]; discriminate. }
+  { intros r Hr Hq'. destruct nodes, pods; try (apply Hq'; [split; reflexivity | left; reflexivity]); apply Hr; [right | left | left]; discriminate. }
   apply Hne; [|intros He; apply Hq; right; left; exact He]. intros Hnonempty.
-  destruct (zlen nodes <? mn) eqn:E1; [apply Hq; right; right; left; apply Z.ltb_lt; exact E1|]. apply Z.ltb_ge in E1.
-  destruct (mx <? zlen nodes) eqn:E2; [apply Hq; right; right; right; left; apply Z.ltb_lt; exact E2|]. apply Z.ltb_ge in E2.
+  destruct (zlen nodes <? mn) eqn:E1; [apply Hq; [right; right; left; apply Z.ltb_lt; exact E1 | right; reflexivity]|]. apply Z.ltb_ge in E1.
+  destruct (mx <? zlen nodes) eqn:E2; [apply Hq; [right; right; right; left; apply Z.ltb_lt; exact E2 | right; reflexivity]|]. apply Z.ltb_ge in E2.
   destruct (fst lkr) eqn:Elk; cbn [negb andb].
-  { destruct (calc_percent _ _ _ _ _); apply Hq; left; reflexivity. }
+  { destruct (calc_percent _ _ _ _ _); (apply Hq; [left; reflexivity | auto]). }
   destruct (zlen (c_untainted cls) <? mn) eqn:E3.
   { apply Z.ltb_lt in E3. apply Hb; auto. }
   apply Z.ltb_ge in E3.
-  destruct (calc_percent _ _ _ _ _) as [cpuP memP|] eqn:Ep; [|apply Hq; right; right; right; right; reflexivity].
+  destruct (calc_percent _ _ _ _ _) as [cpuP memP|] eqn:Ep; [|apply Hq; [right; right; right; right; reflexivity | right; reflexivity]].
   destruct (Hd eq_refl E3 (conj E1 E2) Hnonempty cpuP memP eq_refl) as [Hd1 Hd2].
   destruct (decide _ _ _ _ _ _ _) as [d0|d] eqn:Edec; [apply Hd2 | apply Hd1]; reflexivity.
 Qed.
@@ -681,7 +681,7 @@ Lemma scan_of_frame (P : gresult -> Prop) now gdry api g a nodes pods x : x = ct
   let memReq := 1000 * r_mem (u_total (usage_of x)) in
   let lag := liftA (registration_lag_calls (x_env x) st2 (x_nodes x)) in
   (in_cooldown x = true \/ (x_nodes x = [] /\ x_pods x = []) \/ zlen (x_nodes x) < x_min x \/ x_max x < zlen (x_nodes x) \/ percents x = PctErr ->
-   forall tags out ret st', P (mk tags [] out ret st' a)) ->
+   forall tags out ret st', out = OutOk \/ out = OutErr -> P (mk tags [] out ret st' a)) ->
   (in_cooldown x = false -> zlen unt < x_min x -> x_min x <= zlen (x_nodes x) <= x_max x ->
    forall tags, let r := scale_up (x_env x) (x_opts x) (x_max x) (x_dry x) st2 a (c_tainted (x_cls x)) (x_min x - zlen unt) in
    P (mk tags (up_calls r) (up_out r) (up_ret r) (up_state r) (up_asg r))) ->
@@ -711,7 +711,7 @@ Proof.
   apply (scan_of_frame (fun r => check_C06_group x (r_calls r) = true) now gdry api g a nodes pods x eq_refl).
   all: clearbody x.
   - (* quiet exits: the band is BNone *)
-    intros Hr tags out ret st'. unfold check_C06_group.
+    intros Hr tags out ret st' _. unfold check_C06_group.
     assert (Eb : band_of x = BNone).
     { unfold band_of. destruct Hr as [Hr|[[Hr1 Hr2]|[Hr|[Hr|Hr]]]].
       - rewrite Hr. reflexivity.
@@ -884,4 +884,329 @@ Proof.
       * apply c08_down; assumption.
       * apply c08_no_taint. apply no_taint_write_app; [apply no_update_no_taint; exact Hp1 | apply (scale_up_no_taint_write x)].
       * apply c08_no_taint. apply no_update_no_taint. exact Hq1.
+Qed.
+
+(* ---------- the untaint loop as a run of outcomes ---------- *)
+Inductive uoutcome := UWrote | UNoTaint | UFailed.
+
+Definition untaint_outcome (api : list node) (o : korc) (name : id) : uoutcome :=
+  match api_get api o name with
+  | None => UFailed
+  | Some u => match remove_swap (n_taints u) with
+              | None => UNoTaint
+              | Some _ => if mem_id name (ko_update_fail o) then UFailed else UWrote
+              end
+  end.
+
+Definition uoc_counts (oc : uoutcome) : bool := match oc with UFailed => false | _ => true end.
+
+Fixpoint ul_run (api : list node) (o : korc) (l : list node) (n count : Z) : list (node * uoutcome) :=
+  match l with
+  | [] => []
+  | y :: rest =>
+    if n <=? count then []
+    else let oc := untaint_outcome api o (n_name y) in
+         (y, oc) :: ul_run api o rest n (if uoc_counts oc then count + 1 else count)
+  end.
+
+Lemma untaint_loop_run e l : (forall y, In y l -> has_esc y = true) -> forall n count tr,
+  fst (fst (untaint_loop e false l n count tr)) =
+    concat (map (fun p => fst (delete_taint (e_api e) (e_korc e) (n_name (fst p)))) (ul_run (e_api e) (e_korc e) l n count))
+  /\ snd (fst (untaint_loop e false l n count tr)) = count + zlen (filter (fun p => uoc_counts (snd p)) (ul_run (e_api e) (e_korc e) l n count)).
+Proof.
+  induction l as [|y l IH]; intros Hesc n count tr; simpl; [unfold zlen; simpl; split; [reflexivity | lia]|].
+  destruct (n <=? count); [unfold zlen; simpl; split; [reflexivity | lia]|].
+  rewrite (Hesc y (or_introl eq_refl)).
+  assert (Hok : snd (delete_taint (e_api e) (e_korc e) (n_name y)) = uoc_counts (untaint_outcome (e_api e) (e_korc e) (n_name y))).
+  { unfold delete_taint, untaint_outcome. destruct (api_get (e_api e) (e_korc e) (n_name y)) as [u|]; [|reflexivity].
+    destruct (remove_swap (n_taints u)); [|reflexivity]. destruct (mem_id (n_name y) (ko_update_fail (e_korc e))); reflexivity. }
+  destruct (delete_taint (e_api e) (e_korc e) (n_name y)) as [calls ok] eqn:Ea. simpl in Hok. subst ok.
+  specialize (IH (fun z Hz => Hesc z (or_intror Hz)) n (if uoc_counts (untaint_outcome (e_api e) (e_korc e) (n_name y)) then count + 1 else count) tr).
+  destruct (untaint_loop e false l n _ tr) as [[calls' c'] t']. simpl in IH. destruct IH as [IH1 IH2]. simpl.
+  split; [rewrite IH1; simpl; rewrite Ea; reflexivity|]. rewrite IH2.
+  destruct (uoc_counts (untaint_outcome (e_api e) (e_korc e) (n_name y))); simpl; rewrite ?zlen_cons; lia.
+Qed.
+
+Lemma ul_run_prefix api o l : forall n count, exists k, map fst (ul_run api o l n count) = firstn k l.
+Proof.
+  induction l as [|y l IH]; intros n count; simpl; [exists 0%nat; reflexivity|].
+  destruct (n <=? count); [exists 0%nat; reflexivity|].
+  destruct (IH n (if uoc_counts (untaint_outcome api o (n_name y)) then count + 1 else count)) as [k Hk]. exists (S k). simpl. rewrite Hk. reflexivity.
+Qed.
+
+(* if the loop ends short of n successes it has visited the whole list *)
+Lemma ul_run_complete api o l : forall n count,
+  count + zlen (filter (fun p => uoc_counts (snd p)) (ul_run api o l n count)) < n -> map fst (ul_run api o l n count) = l.
+Proof.
+  induction l as [|y l IH]; intros n count H; simpl; [reflexivity|].
+  simpl in H. destruct (n <=? count) eqn:E; [apply Z.leb_le in E; unfold zlen in H; simpl in H; lia|].
+  simpl in *. f_equal. apply IH.
+  destruct (uoc_counts (untaint_outcome api o (n_name y))); simpl in H; rewrite ?zlen_cons in H; lia.
+Qed.
+
+Section UProj.
+  Variable x : gctx.
+  Notation api := (e_api (x_env x)).
+  Notation o := (e_korc (x_env x)).
+  Let uc (p : node * uoutcome) := fst (delete_taint api o (n_name (fst p))).
+
+  Lemma untaint_ok_targets_app a b : untaint_ok_targets x (a ++ b) = untaint_ok_targets x a ++ untaint_ok_targets x b.
+  Proof. unfold untaint_ok_targets. rewrite map_app, concat_app. reflexivity. Qed.
+
+  Lemma one_untaint_got n : got_names (liftK (fst (delete_taint api o (n_name n)))) = [n_name n].
+  Proof.
+    unfold delete_taint. destruct (api_get api o (n_name n)) as [u|]; [|reflexivity].
+    destruct (remove_swap (n_taints u)); [|reflexivity]. destruct (mem_id (n_name n) (ko_update_fail o)); reflexivity.
+  Qed.
+
+  Lemma urun_got run : got_names (liftK (concat (map uc run))) = map (fun p => n_name (fst p)) run.
+  Proof.
+    induction run as [|[n oc] run IH]; [reflexivity|]. simpl. rewrite liftK_app, got_names_app, IH. unfold uc. simpl.
+    rewrite one_untaint_got. reflexivity.
+  Qed.
+
+  (* every visited node ends untainted by a write, or was not tainted in the API server's copy, or its write failed *)
+  Lemma one_untaint_result n :
+    let calls := liftK (fst (delete_taint api o (n_name n))) in
+    In (n_name n) (untaint_ok_targets x calls) \/ In (n_name n) (failed_names calls)
+    \/ (exists m, api_copy x (n_name n) = Some m /\ has_esc m = false).
+  Proof.
+    unfold delete_taint. destruct (api_get api o (n_name n)) as [u|] eqn:Eu; [|right; left; left; reflexivity].
+    pose proof (api_get_lookup x _ _ Eu) as Hl.
+    destruct (remove_swap (n_taints u)) as [ts|] eqn:Er.
+    - destruct (mem_id (n_name n) (ko_update_fail o)); [right; left; left; reflexivity|].
+      left. unfold untaint_ok_targets, liftK. simpl. unfold longer_than_copy, api_copy. rewrite Hl. simpl n_taints.
+      destruct (remove_swap_perm _ _ Er) as [_ [_ H3]].
+      replace (Nat.ltb (length (n_taints u)) (length ts)) with false by (symmetry; apply Nat.ltb_ge; lia). left. reflexivity.
+    - right; right. exists u. split; [exact Hl|].
+      unfold has_esc, has_key. clear -Er. induction (n_taints u) as [|t l IH]; [reflexivity|]. simpl in *.
+      destruct (t_key t =? id_esc_key); [discriminate|]. simpl. apply IH. destruct (remove_swap l); [discriminate | reflexivity].
+  Qed.
+
+  Lemma urun_result run p : In p run ->
+    let calls := liftK (concat (map uc run)) in
+    In (n_name (fst p)) (untaint_ok_targets x calls) \/ In (n_name (fst p)) (failed_names calls)
+    \/ (exists m, api_copy x (n_name (fst p)) = Some m /\ has_esc m = false).
+  Proof.
+    induction run as [|q run IH]; [intros []|]. intros [->|Hin]; simpl; rewrite liftK_app, untaint_ok_targets_app, failed_names_app.
+    - destruct (one_untaint_result (fst p)) as [H|[H|H]]; [left | right; left | right; right; exact H]; apply in_or_app; left; exact H.
+    - destruct (IH Hin) as [H|[H|H]]; [left | right; left | right; right; exact H]; apply in_or_app; right; exact H.
+  Qed.
+End UProj.
+
+(* ---------- C07 ---------- *)
+Definition inert (calls : list call) : Prop :=
+  forall c, In c calls -> is_cloud_increase c = false /\ match c with CK (KGet _ _) => False | _ => True end.
+
+Lemma inert_app a b : inert a -> inert b -> inert (a ++ b).
+Proof. intros Ha Hb c Hc. apply in_app_or in Hc. destruct Hc; auto. Qed.
+Lemma inert_got calls : inert calls -> got_names calls = [].
+Proof.
+  intros H. unfold got_names. induction calls as [|c l IH]; [reflexivity|]. simpl.
+  rewrite IH by (intros c' Hc'; apply H; right; exact Hc').
+  destruct (H c (or_introl eq_refl)) as [_ Hg]. destruct c as [[]|]; simpl in *; try reflexivity; contradiction.
+Qed.
+Lemma inert_cbi pre l : inert pre -> calls_before_increase (pre ++ l) = pre ++ calls_before_increase l.
+Proof.
+  intros H. induction pre as [|c pre IH]; [reflexivity|]. simpl.
+  destruct (H c (or_introl eq_refl)) as [-> _]. f_equal. apply IH. intros c' Hc'. apply H. right. exact Hc'.
+Qed.
+Lemma inert_no_increase calls : inert calls -> existsb is_cloud_increase calls = false.
+Proof. intros H. apply no_increase_existsb. intros c Hc. apply H. exact Hc. Qed.
+Lemma removal_inert a cands calls : (forall c, In c calls -> removal_of a cands c) -> inert calls.
+Proof. intros H c Hc. destruct (H c Hc); split; try reflexivity; exact I. Qed.
+Lemma lag_inert e st nodes : inert (liftA (registration_lag_calls e st nodes)).
+Proof.
+  intros c Hc. split; [apply (lag_no_increase e st nodes c Hc)|].
+  unfold liftA in Hc. apply in_map_iff in Hc. destruct Hc as [k [<- _]]. exact I.
+Qed.
+Lemma liftA_got l : got_names (liftA l) = [].
+Proof. unfold got_names, liftA. induction l as [|c l IH]; [reflexivity | exact IH]. Qed.
+Lemma liftK_cbi l rest : calls_before_increase (liftK l ++ rest) = liftK l ++ calls_before_increase rest.
+Proof. unfold liftK. induction l as [|c l IH]; [reflexivity|]. simpl. f_equal. exact IH. Qed.
+Lemma liftK_increase l : existsb is_cloud_increase (liftK l) = false.
+Proof. apply no_increase_existsb. apply liftK_no_increase. Qed.
+
+Lemma find_node_unique l y : NoDup (map n_name l) -> In y l -> find_node l (n_name y) = Some y.
+Proof.
+  induction l as [|h l IH]; intros Hnd Hin; [destruct Hin|]. unfold find_node. simpl.
+  inversion Hnd as [|? ? Hnot Hnd']; subst. destruct Hin as [->|Hin]; [rewrite Z.eqb_refl; reflexivity|].
+  destruct (n_name h =? n_name y) eqn:E; [|apply IH; assumption].
+  apply Z.eqb_eq in E. exfalso. apply Hnot. rewrite E. apply in_map. exact Hin.
+Qed.
+
+Lemma non_increasing_sorted l : StronglySorted (fun a b => n_created b <= n_created a) l -> non_increasing (map n_created l) = true.
+Proof.
+  induction 1 as [|h l Hs IH Hall]; [reflexivity|]. simpl. rewrite IH, andb_true_r.
+  destruct l as [|h2 l2]; [reflexivity|]. simpl. apply Z.leb_le. inversion Hall; subst. assumption.
+Qed.
+
+Lemma sorted_firstn {A} (R : A -> A -> Prop) k : forall l, StronglySorted R l -> StronglySorted R (firstn k l).
+Proof.
+  induction k as [|k IH]; intros l Hs; [constructor|]. destruct l as [|h l]; [constructor|].
+  simpl. inversion Hs as [|? ? Hs' Hall]; subst. constructor; [apply IH; exact Hs'|].
+  rewrite Forall_forall in *. intros y Hy. apply Hall. eapply In_firstn. exact Hy.
+Qed.
+
+Lemma sort_newest_sorted l : StronglySorted (fun a b => n_created b <= n_created a) (sort_newest l).
+Proof.
+  unfold sort_newest.
+  assert (H : StronglySorted (leP (fun a b : node => n_created b <=? n_created a)) (isort (fun a b : node => n_created b <=? n_created a) l)).
+  { apply isort_sorted.
+    - intros a b. destruct (Z.leb_spec (n_created b) (n_created a)); [left; reflexivity | right; apply Z.leb_le; lia].
+    - intros a b c H1 H2. apply Z.leb_le in H1, H2. apply Z.leb_le. lia. }
+  induction H as [|h t Hs IH Hall]; constructor; [exact IH|]. eapply Forall_impl; [|exact Hall]. intros y Hy. unfold leP in Hy. apply Z.leb_le. exact Hy.
+Qed.
+
+Section C07.
+  Variable x : gctx.
+  Notation api := (e_api (x_env x)).
+  Notation o := (e_korc (x_env x)).
+  Hypothesis Hdry : x_dry x = false.
+  Hypothesis Hcls : x_cls x = filter_nodes (x_dry x) (x_st x) (x_nodes x).
+  Hypothesis Hnd : NoDup (map n_name (x_nodes x)).
+  Notation tainted := (c_tainted (x_cls x)).
+
+  Lemma tainted_nodup : NoDup (map n_name tainted).
+  Proof. rewrite Hcls. unfold filter_nodes; simpl. apply NoDup_map_filter. exact Hnd. Qed.
+
+  Lemma tainted_has_esc y : In y tainted -> has_esc y = true.
+  Proof. rewrite Hcls, Hdry. intros H. apply in_tainted in H. destruct H as [_ H]. apply classify_wet_1 in H. tauto. Qed.
+
+  Lemma c07_quiet calls : inert calls -> check_C07_group x calls = true.
+  Proof.
+    intros H. unfold check_C07_group. rewrite Hdry, (inert_got _ H), (inert_no_increase _ H). reflexivity.
+  Qed.
+
+  (* a journal of lookups and writes on untainted nodes only *)
+  Lemma c07_untainted_gets pre kc : inert pre -> (forall c, In c (liftK kc) -> exists y, In y (c_untainted (x_cls x)) /\ match c with CK (KGet m _) => m = n_name y | _ => True end) ->
+    check_C07_group x (pre ++ liftK kc) = true.
+  Proof.
+    intros Hpre Hk. unfold check_C07_group. rewrite Hdry. rewrite existsb_app, (inert_no_increase _ Hpre), liftK_increase. simpl. rewrite andb_true_r.
+    rewrite got_names_app, (inert_got _ Hpre). simpl app.
+    assert (Hf : filter (in_class (c_tainted (x_cls x))) (got_names (liftK kc)) = []).
+    { apply filter_nil. intros name Hname. unfold got_names in Hname. apply in_concat in Hname. destruct Hname as [l [Hl Hname]].
+      apply in_map_iff in Hl. destruct Hl as [c [<- Hc]]. destruct (Hk c Hc) as [y [Hy Hm]].
+      destruct c as [[m ok|m pp ok|m ok]|ac]; simpl in Hname; try contradiction. destruct Hname as [<-|[]]. subst m.
+      destruct (in_class (c_tainted (x_cls x)) (n_name y)) eqn:E; [|reflexivity]. exfalso.
+      apply in_class_iff in E. destruct E as [z [Hz Hzn]].
+      rewrite Hcls, Hdry in Hy, Hz. apply in_untainted in Hy. apply in_tainted in Hz. destruct Hy as [Hy1 Hy2], Hz as [Hz1 Hz2].
+      assert (z = y) by (eapply unique_by_name; eauto). subst z. congruence. }
+    rewrite Hf. reflexivity.
+  Qed.
+
+  Lemma c07_up pre run ac k :
+    inert pre -> map fst run = firstn k (sort_newest tainted) ->
+    (existsb is_cloud_increase (liftA ac) = true -> map fst run = sort_newest tainted) ->
+    check_C07_group x (pre ++ liftK (concat (map (fun p : node * uoutcome => fst (delete_taint api o (n_name (fst p)))) run)) ++ liftA ac) = true.
+  Proof.
+    intros Hpre Hk Hcomplete. unfold check_C07_group. rewrite Hdry.
+    set (U := liftK (concat (map (fun p : node * uoutcome => fst (delete_taint api o (n_name (fst p)))) run))).
+    rewrite !got_names_app, (inert_got _ Hpre), liftA_got, app_nil_r. simpl app.
+    unfold U at 1. rewrite (urun_got x run).
+    assert (Hin_run : forall p, In p run -> In (fst p) tainted).
+    { intros p Hp. assert (H : In (fst p) (map fst run)) by (apply in_map; exact Hp). rewrite Hk in H. apply In_firstn in H.
+      apply (proj1 (sort_newest_In _ _)) in H. exact H. }
+    assert (Hfilter : filter (in_class (c_tainted (x_cls x))) (map (fun p : node * uoutcome => n_name (fst p)) run) = map (fun p : node * uoutcome => n_name (fst p)) run).
+    { clear -Hin_run. induction run as [|p run IH]; [reflexivity|]. simpl.
+      rewrite (in_class_In _ _ (Hin_run p (or_introl eq_refl))). f_equal. apply IH. intros q Hq. apply Hin_run. right. exact Hq. }
+    rewrite Hfilter.
+    assert (Hcreated : map (created_of tainted) (map (fun p : node * uoutcome => n_name (fst p)) run) = map n_created (map fst run)).
+    { rewrite !map_map. apply map_ext_in. intros p Hp. unfold created_of. rewrite (find_node_unique tainted (fst p) tainted_nodup (Hin_run p Hp)). reflexivity. }
+    rewrite Hcreated, Hk. rewrite (non_increasing_sorted _ (sorted_firstn _ k _ (sort_newest_sorted tainted))). simpl.
+    rewrite !existsb_app, (inert_no_increase _ Hpre). unfold U at 1. rewrite liftK_increase. simpl.
+    destruct (existsb is_cloud_increase (liftA ac)) eqn:Einc; [|reflexivity].
+    rewrite (inert_cbi _ _ Hpre). unfold U. rewrite liftK_cbi. fold U.
+    specialize (Hcomplete eq_refl).
+    apply forallb_forall. intros y Hy.
+    assert (Hyrun : In y (map fst run)) by (rewrite Hcomplete; apply sort_newest_In; exact Hy).
+    apply in_map_iff in Hyrun. destruct Hyrun as [p [Hpy Hp]]. subst y.
+    rewrite !got_names_app, (inert_got _ Hpre). simpl app. unfold U at 1. rewrite (urun_got x run).
+    replace (mem_id (n_name (fst p)) (map (fun p0 : node * uoutcome => n_name (fst p0)) run ++ got_names (calls_before_increase (liftA ac)))) with true
+      by (symmetry; apply mem_id_In; apply in_or_app; left; apply in_map_iff; exists p; auto).
+    simpl.
+    destruct (urun_result x run p Hp) as [H|[H|[m [Hm1 Hm2]]]].
+    + apply orb_true_iff. left. apply orb_true_iff. left. apply mem_id_In.
+      rewrite !untaint_ok_targets_app. apply in_or_app. right. apply in_or_app. left. exact H.
+    + apply orb_true_iff. left. apply orb_true_iff. right. apply mem_id_In.
+      rewrite !failed_names_app. apply in_or_app. right. apply in_or_app. left. exact H.
+    + apply orb_true_iff. right. rewrite Hm1, Hm2. reflexivity.
+  Qed.
+End C07.
+
+Lemma scale_up_shape x mx st a want : x_dry x = false -> (forall y, In y (c_tainted (x_cls x)) -> has_esc y = true) ->
+  let run := ul_run (e_api (x_env x)) (e_korc (x_env x)) (sort_newest (c_tainted (x_cls x))) want 0 in
+  exists ac, up_calls (scale_up (x_env x) (x_opts x) mx (x_dry x) st a (c_tainted (x_cls x)) want)
+             = liftK (concat (map (fun p : node * uoutcome => fst (delete_taint (e_api (x_env x)) (e_korc (x_env x)) (n_name (fst p)))) run)) ++ liftA ac
+            /\ (ac <> [] -> map fst run = sort_newest (c_tainted (x_cls x))).
+Proof.
+  intros Hdry Hesc run. unfold scale_up. rewrite Hdry.
+  assert (Hesc' : forall y, In y (sort_newest (c_tainted (x_cls x))) -> has_esc y = true) by (intros y Hy; apply Hesc; apply (proj1 (sort_newest_In _ _)); exact Hy).
+  pose proof (untaint_loop_run (x_env x) (sort_newest (c_tainted (x_cls x))) Hesc' want 0 (g_taint_tracker st)) as [H1 H2]. fold run in H1, H2.
+  set (ul := match c_tainted (x_cls x) with [] => ([], 0, g_taint_tracker st) | _ => untaint_loop (x_env x) false (sort_newest (c_tainted (x_cls x))) want 0 (g_taint_tracker st) end).
+  assert (Hul : fst (fst ul) = concat (map (fun p : node * uoutcome => fst (delete_taint (e_api (x_env x)) (e_korc (x_env x)) (n_name (fst p)))) run)
+                /\ snd (fst ul) = 0 + zlen (filter (fun p : node * uoutcome => uoc_counts (snd p)) run)).
+  { subst ul. destruct (c_tainted (x_cls x)) as [|t0 ts] eqn:Et; [|split; assumption].
+    subst run. unfold sort_newest. simpl. unfold zlen. simpl. split; reflexivity. }
+  destruct ul as [[ucalls ucount] tr]. simpl in Hul. destruct Hul as [Hu1 Hu2]. subst ucalls.
+  assert (Hnil : forall l : list call, l = l ++ liftA []) by (intros; rewrite app_nil_r; reflexivity).
+  destruct (0 <? want - ucount) eqn:Erest; [|exists []; split; [apply Hnil | congruence]]. apply Z.ltb_lt in Erest.
+  assert (Hcomplete : map fst run = sort_newest (c_tainted (x_cls x))) by (apply ul_run_complete; fold run; lia).
+  destruct a as [g|]; [|exists []; split; [apply Hnil | congruence]].
+  destruct (nodes_to_add _ _ _ <=? 0); [exists []; split; [apply Hnil | congruence]|].
+  destruct (aws_increase g _ _) as [[ac r] g'].
+  exists ac. split; [destruct r; reflexivity | intros _; exact Hcomplete].
+Qed.
+
+Theorem group_passes_C07 now gdry api g a nodes pods :
+  let x := ctx_of now gdry api g a nodes pods in
+  NoDup (map n_name (x_nodes x)) ->
+  check_C07_group x (r_calls (scan_of now gdry api g a nodes pods)) = true.
+Proof.
+  intros x Hnd.
+  destruct (x_dry x) eqn:Hdry; [unfold check_C07_group; rewrite Hdry; reflexivity|].
+  assert (Hcls : x_cls x = filter_nodes (x_dry x) (x_st x) (x_nodes x)) by reflexivity.
+  assert (Hup : forall pre mx st a1 want, inert pre ->
+            check_C07_group x (pre ++ up_calls (scale_up (x_env x) (x_opts x) mx (x_dry x) st a1 (c_tainted (x_cls x)) want)) = true).
+  { intros pre mx st a1 want Hpre.
+    destruct (scale_up_shape x mx st a1 want Hdry (tainted_has_esc x Hdry Hcls)) as [ac [-> Hc]]. cbv zeta in Hc.
+    destruct (ul_run_prefix (e_api (x_env x)) (e_korc (x_env x)) (sort_newest (c_tainted (x_cls x))) want 0) as [k Hk].
+    eapply (c07_up x Hdry Hcls Hnd pre _ ac k Hpre Hk).
+    intros Hinc. apply Hc. intros ->. discriminate. }
+  apply (scan_of_frame (fun r => check_C07_group x (r_calls r) = true) now gdry api g a nodes pods x eq_refl).
+  all: clearbody x.
+  - intros. apply (c07_quiet x Hdry). intros c [].
+  - intros _ _ _ tags. apply (Hup []). intros c [].
+  - intros _ _ _ _ cpuP memP _. split.
+    + intros tags d _. apply (c07_quiet x Hdry). apply lag_inert.
+    + intros tags d0 _. unfold scan_act.
+      destruct (try_delete_nodes _ _ (force_candidates _ _ _)) as [[fcalls ferr] a1] eqn:Ef.
+      destruct (try_delete_nodes_calls _ _ _ _ _ _ Ef) as [_ [Hf _]]. apply removal_inert in Hf.
+      match goal with |- context [if ?d <? 0 then _ else _] => set (d2 := d) end.
+      destruct (d2 <? 0).
+      * destruct (try_delete_nodes _ a1 (reap_candidates _ _ _ _ _)) as [[rcalls rerr] a2] eqn:Er.
+        destruct (try_delete_nodes_calls _ _ _ _ _ _ Er) as [_ [Hr _]]. apply removal_inert in Hr.
+        destruct (scale_down_taint _ _ _ _ _ _ _) as [[tcalls terr] st3] eqn:Et.
+        assert (Hpre : inert (liftA (registration_lag_calls (x_env x) (with_lock (x_st x) (snd (lock_check (g_lock (x_st x)) (e_now (x_env x)) (o_cool (x_opts x))))) (x_nodes x)) ++ fcalls ++ rcalls))
+          by (repeat apply inert_app; try assumption; apply lag_inert).
+        destruct rerr as [[|]|]; simpl; try (apply (c07_quiet x Hdry); exact Hpre).
+        all: rewrite !app_assoc; rewrite <- (app_assoc _ fcalls rcalls).
+        all: pose proof (scale_down_taint_wet x (x_min x) (with_lock (x_st x) (snd (lock_check (g_lock (x_st x)) (e_now (x_env x)) (o_cool (x_opts x))))) (c_untainted (x_cls x)) (- d2) Hdry) as Hw;
+             cbv zeta in Hw; rewrite Et in Hw; simpl in Hw.
+        all: destruct Hw as [[_ ->]|[_ ->]]; [rewrite app_nil_r; apply (c07_quiet x Hdry); exact Hpre|].
+        all: apply (c07_untainted_gets x Hdry Hcls Hnd); [exact Hpre|].
+        all: intros c Hc; unfold liftK in Hc; apply in_map_iff in Hc; destruct Hc as [kc [<- Hkc]]; apply in_concat in Hkc; destruct Hkc as [l [Hl Hkc]];
+             apply in_map_iff in Hl; destruct Hl as [p [<- Hp]];
+             (assert (Hpn : In (fst p) (c_untainted (x_cls x)));
+              [ assert (Hq : In (fst p) (map fst (tl_run (e_api (x_env x)) (e_korc (x_env x)) (sort_oldest (c_untainted (x_cls x))) (clamp_n (x_min x) (c_untainted (x_cls x)) (- d2)) 0))) by (apply in_map; exact Hp);
+                destruct (tl_run_prefix (e_api (x_env x)) (e_korc (x_env x)) (sort_oldest (c_untainted (x_cls x))) (clamp_n (x_min x) (c_untainted (x_cls x)) (- d2)) 0) as [k Hk];
+                rewrite Hk in Hq; apply In_firstn in Hq; apply (proj1 (sort_oldest_In _ _)) in Hq; exact Hq
+              | exists (fst p); split; [exact Hpn|]; pose proof (add_taint_names _ _ _ _ _ _ Hkc) as Hm; destruct kc; auto ]).
+      * destruct (0 <? d2).
+        -- assert (Hpre : inert (liftA (registration_lag_calls (x_env x) (with_lock (x_st x) (snd (lock_check (g_lock (x_st x)) (e_now (x_env x)) (o_cool (x_opts x))))) (x_nodes x)) ++ fcalls))
+             by (apply inert_app; [apply lag_inert | assumption]).
+           destruct (up_out _); simpl; rewrite app_assoc; apply Hup; exact Hpre.
+        -- destruct (try_delete_nodes _ a1 (reap_candidates _ _ _ _ _)) as [[rcalls rerr] a2] eqn:Er.
+           destruct (try_delete_nodes_calls _ _ _ _ _ _ Er) as [_ [Hr _]]. apply removal_inert in Hr.
+           destruct rerr as [[|]|]; simpl; apply (c07_quiet x Hdry); repeat apply inert_app; try assumption; apply lag_inert.
 Qed.
